@@ -851,7 +851,7 @@ func c16InterpPar(t *testing.T, c c16Case) (v kit.Verdict) {
 		}
 		return false
 	}
-	if !c16ParDirty && runtime.NumGoroutine() > c16BaseGoroutines+400 && !settle() {
+	if !c16ParDirty && (c.Q || runtime.NumGoroutine() > c16BaseGoroutines+400) && !settle() {
 		// a flusher lives for 11..12 intervals (<= 24 ms) after its last activity and a case takes
 		// well under a millisecond, so some dozens of retiring flushers are normal, hundreds that
 		// do not go away within 10 s are not
@@ -860,7 +860,7 @@ func c16InterpPar(t *testing.T, c c16Case) (v kit.Verdict) {
 			Fail: fmt.Sprintf("leak: %d goroutines (background flushers) of EARLIER exec-parallel cases are still alive after 10 s of real time (%d before the rule started); the case in this replay file is not the culprit, any case leaks",
 				runtime.NumGoroutine(), c16BaseGoroutines)}
 	}
-	strong := c.Q && settle()
+	strong := c.Q && !c16ParDirty
 	if f := c16Run(c, s, true); f != "" {
 		c16ParDirty, c16ParLimit = true, 2*time.Second
 		return kit.Verdict{Fail: f, Classes: []string{"stuck"}}
